@@ -1093,6 +1093,21 @@ pub fn execute(plan: &Plan, obs: &mut Obs) -> Result<(), Fail> {
         ctor,
     };
     obs.count(&format!("setup.{}.{}", ctor, plan.setup.interp));
+    if model.nodes.len() > 20 {
+        obs.count("reach.long_curve_over_20_nodes");
+    }
+    if model.nodes.len() > 128 {
+        obs.count("reach.long_curve_over_128_nodes");
+    }
+    if plan.setup.share_vars && model.nodes[0].num.kind() > 0 {
+        obs.count("reach.nodes_with_pointer_shared_variable_lists");
+    }
+    if model.nodes[0].ts < 0 {
+        obs.count("reach.nodes_before_1970");
+    }
+    if plan.setup.id.trim() != plan.setup.id || plan.setup.id.is_empty() {
+        obs.count("reach.padded_or_empty_curve_id");
+    }
     probe(&sut, tags0, &mut c, "init", &[], obs)?;
     match &plan.history {
         History::Exhaustive { depth } => {
@@ -1269,7 +1284,7 @@ impl Scenario for C12 {
         "Curve order-switch history".into()
     }
     fn rule() -> String {
-        "one evaluation = one seeded curve (2..8 nodes at distinct dates with gaps of 1 day..30 years supplied in shuffled order; float, user-Dual or user-Dual2 node values; one of five interpolation rules; built through CurveDF::try_new or through the Python-facing Curve constructor at order 0/1/2; with or without index_base) on which EVERY sequence of set_ad_order switches over {0,1,2} up to depth 3 (quick) / 4-5 (thorough) is executed depth-first; after every switch every query date (each node date, midpoint and two interior points of every interval, two dates before the first and two after the last node) is looked up and compared (value, kind, variable names, gradient, Hessian, index_value) with the closed form evaluated in the reference AD under the model's tag state. Distinct = distinct plan digest; non-trivial = history depth >= 2.".into()
+        "one evaluation = one seeded curve (2..20 nodes, 3 % of curves 21..200, at distinct dates 1901..2500 with gaps of 1 day..30 years and sometimes times of day, supplied in shuffled order; round and repeated values; arbitrary ids; float, user-Dual or user-Dual2 node values; one of five interpolation rules; built through CurveDF::try_new or through the Python-facing Curve constructor at order 0/1/2; with or without index_base) on which EVERY sequence of set_ad_order switches over {0,1,2} up to depth 3 (quick) / 4-5 (thorough) is executed depth-first; after every switch every query date (each node date, midpoint and two interior points of every interval, two dates before the first and two after the last node) is looked up and compared (value, kind, variable names, gradient, Hessian, index_value) with the closed form evaluated in the reference AD under the model's tag state. Distinct = distinct plan digest; non-trivial = history depth >= 2.".into()
     }
     fn assumptions() -> Vec<String> {
         vec![
